@@ -145,6 +145,9 @@ structure Cfg where
   /-- code variant: `SendBundle` assigns the sequence number before it creates the descriptor
       (D17 repaired); `false` = `transmit` assigns it afterwards -/
   seqFirst : Bool
+  /-- code variant: `SendBundle` skips sequence numbers whose bundle ID is still in the store
+      (/repo b43260e; `false` = the number of the IdKeeper is used as it is). Only with `seqFirst`. -/
+  skipStored : Bool
   /-- code variant: `calcExpirationDate` counts from reception when the creation time is zero
       (D22 repaired) -/
   expiryNow : Bool
@@ -171,8 +174,9 @@ structure Node where
   spray : List (Key × SprayMeta)
   /-- `IdKeeper.data` -/
   idk : List ((Eid × Nat) × Nat)
-  /-- environment bookkeeping: number of `Send` calls so far per (CLA address, bundle tag) -/
-  attempts : List ((Nat × Nat) × Nat)
+  /-- environment bookkeeping: number of `Send` calls so far per (CLA address, bundle tag, sequence number),
+      i.e. per CLA and concrete bundle on the wire -/
+  attempts : List ((Nat × Nat × Nat) × Nat)
   now : Nat
   /-- number of events processed so far (index into `Env.prefer`) -/
   evNo : Nat
@@ -180,7 +184,8 @@ deriving DecidableEq, Repr
 
 /-- The environment's choices. -/
 structure Env where
-  /-- answer of CLA `addr` to its `n`-th `Send` of the bundle `tag` (the mock CLA's script) -/
+  /-- answer of CLA `addr` to its `n`-th `Send` of one concrete bundle (tag and sequence number) made from the
+      definition `tag` (the mock CLA's script) -/
   sendOk : Nat → Nat → Nat → Bool
   /-- iteration order of `Manager.Sender()` while the bundle with this key is processed in event
       number `evNo`: addresses listed here come first (in this order), the others follow -/
@@ -316,6 +321,22 @@ def idkUpdate (b : Bundle) (n : Node) : Bundle × Node :=
     | none => 0
   ({ b with seq := s }, n.setIdk (setNat n.idk (b.src, b.ts) s))
 
+/-- The loop of `SendBundle`: while a bundle with this ID is in the store, take the next number of the
+IdKeeper. `fuel` bounds the number of rounds; `n.store.length + 1` rounds always reach a free number
+(`Dtn7.Node.idkSkip_fresh`), so the bound is never hit. -/
+def idkSkip : Nat → Bundle → Node → Bundle × Node
+  | 0, b, n => (b, n)
+  | fuel + 1, b, n =>
+    if (n.store.get b.key).isSome then
+      let bn := idkUpdate b n
+      idkSkip fuel bn.1 bn.2
+    else (b, n)
+
+/-- The first statements of `SendBundle`: `c.idKeeper.update(bndl)` and the loop over stored IDs. -/
+def assignSeq (b : Bundle) (n : Node) : Bundle × Node :=
+  let bn := idkUpdate b n
+  if n.cfg.skipStored then idkSkip (n.store.length + 1) bn.1 bn.2 else bn
+
 /-! ## Routing algorithms -/
 
 /-- `Manager.Sender()` in the order the environment picked for this bundle in this event. -/
@@ -407,14 +428,21 @@ def reportFailure (d : Desc) (p : Peer) (n : Node) : Node :=
     match lookupMeta n.spray d.key with
     | none => n
     | some m =>
-      { n with spray := setMeta n.spray d.key { sent := eraseFirst p.eid m.sent, copies := m.copies + 1 } }
+      -- only a peer found in the sent list (one chosen by `SenderForBundle`) gives its copy back
+      let m' : SprayMeta :=
+        { sent := eraseFirst p.eid m.sent, copies := if m.sent.contains p.eid then m.copies + 1 else m.copies }
+      { n with spray := setMeta n.spray d.key m' }
   | .binarySpray =>
     match d.bndl.bind (·.bsCopies) with
     | none => n
-    | some _ =>
+    | some back =>
       match lookupMeta n.spray d.key with
       | none => n
-      | some m => { n with spray := setMeta n.spray d.key { m with sent := eraseFirst p.eid m.sent } }
+      | some m =>
+        -- the copies written into the bundle's block for this peer are taken back
+        let m' : SprayMeta :=
+          { sent := eraseFirst p.eid m.sent, copies := if m.sent.contains p.eid then m.copies + back else m.copies }
+        { n with spray := setMeta n.spray d.key m' }
   | .prophet => modRt d.key (fun r => { r with sentP := eraseFirst p.eid r.sentP }) n
   | .dtlsr =>
     if n.cfg.dtlsrFail && (match d.bndl with | some b => decide (b.dst = n.cfg.bcast) | none => false) then
@@ -530,16 +558,16 @@ def ageExpired (b : Bundle) : Bool :=
   | some a => decide (b.lifetime ≤ a)
   | none => false
 
-def attemptNo (n : Node) (addr tag : Nat) : Nat := (lookupNat n.attempts (addr, tag)).getD 0
+def attemptNo (n : Node) (addr tag seq : Nat) : Nat := (lookupNat n.attempts (addr, tag, seq)).getD 0
 
 /-- The per-sender goroutines of `forward`, run one after the other:
 `Send`; on failure `routing.ReportFailure`. Returns the state, the outputs and `bundleSent`. -/
 def sendAll (env : Env) (d : Desc) (b : Bundle) : List Peer → Node → Node × List Output × Bool
   | [], n => (n, [], false)
   | p :: ps, n =>
-    let k := attemptNo n p.addr b.tag
+    let k := attemptNo n p.addr b.tag b.seq
     let ok := env.sendOk p.addr b.tag k
-    let n1 := { n with attempts := setNat n.attempts (p.addr, b.tag) (k + 1) }
+    let n1 := { n with attempts := setNat n.attempts (p.addr, b.tag, b.seq) (k + 1) }
     let n2 := if ok then n1 else reportFailure d p n1
     let r := sendAll env d b ps n2
     (r.1, Output.sent p b ok :: r.2.1, ok || r.2.2)
@@ -609,7 +637,7 @@ def transmit (env : Env) (d : Desc) (b : Bundle) (n : Node) : Node × List Outpu
 
 /-- `Core.SendBundle`. -/
 def sendBundle (env : Env) (b : Bundle) (n : Node) : Node × List Output :=
-  let bn := if n.cfg.seqFirst then idkUpdate b n else (b, n)
+  let bn := if n.cfg.seqFirst then assignSeq b n else (b, n)
   let dn := newDescFromBundle bn.1 bn.2
   let n := notifyNew dn.1.key bn.1 dn.2
   transmit env dn.1 bn.1 n
